@@ -561,7 +561,7 @@ Qed.
 Lemma lookup_upd_bound e v t t' k : lookup k (upd e v t) <> None -> lookup k (upd e v t') <> None.
 Proof.
   destruct (name_eqb k v) eqn:E.
-  - apply name_eqb_eq in E. subst k. rewrite lookup_upd_same. discriminate.
+  - apply name_eqb_eq in E. subst k. rewrite !lookup_upd_same. intros _. discriminate.
   - apply name_eqb_neq in E. rewrite !lookup_upd_other by exact E. exact (fun H => H).
 Qed.
 
